@@ -259,7 +259,29 @@ var c03NumTokens = []string{"0", "-0", "00", "1e3", "0x10", "9223372036854775808
 func c03Mutate(rng *rand.Rand, data []byte) []byte {
 	lines := strings.Split(string(data), "\n")
 	pickLine := func() int { return rng.Intn(len(lines)) }
-	switch rng.Intn(14) {
+	switch rng.Intn(16) {
+	case 14, 15: // a field becomes one arbitrary byte (every value 1..255 except the separators), or a few of them
+		i := pickLine()
+		f := strings.Split(lines[i], "\t")
+		nb := 1
+		if rng.Intn(4) == 0 {
+			nb = 2 + rng.Intn(3)
+		}
+		b := make([]byte, nb)
+		for k := range b {
+			for b[k] == 0 || b[k] == '\t' || b[k] == '\n' {
+				b[k] = byte(rng.Intn(256))
+				if rng.Intn(3) == 0 {
+					b[k] = byte(128 + rng.Intn(128))
+				}
+			}
+		}
+		k := rng.Intn(len(f))
+		if len(f) > 5 && rng.Intn(2) == 0 {
+			k = 5 + rng.Intn(minInt(3, len(f)-5)) // the strand/frame region of BED and GFF lines
+		}
+		f[k] = string(b)
+		lines[i] = strings.Join(f, "\t")
 	case 0, 1: // delete a column
 		i := pickLine()
 		f := strings.Split(lines[i], "\t")
@@ -408,7 +430,7 @@ var c03Catalogue = func() []c03Cat {
 		return gffLine(rng, func(f []string) []string { f[3] = []string{"0", "00", "-0", "+0", "0x0"}[rng.Intn(5)]; return f })
 	}})
 	cat = append(cat, c03Cat{"gff", "gff bad strand", func(rng *rand.Rand) string {
-		return gffLine(rng, func(f []string) []string { f[6] = []string{"x", "++", "", "+-", "1", "*"}[rng.Intn(6)]; return f })
+		return gffLine(rng, func(f []string) []string { f[6] = []string{"x", "++", "", "+-", "1", "*", "\x80", "\xff", "\xc3\xa9", "\x7f", string([]byte{byte(128 + rng.Intn(128))})}[rng.Intn(11)]; return f })
 	}})
 	cat = append(cat, c03Cat{"gff", "gff non-numeric score", func(rng *rand.Rand) string {
 		return gffLine(rng, func(f []string) []string { f[5] = []string{"abc", "", "..", "1,5"}[rng.Intn(4)]; return f })
@@ -440,7 +462,7 @@ var c03Catalogue = func() []c03Cat {
 		}
 		if n >= 6 {
 			cat = append(cat, c03Cat{kind, kind + " bad strand", func(rng *rand.Rand) string {
-				return bedLine(rng, n, func(f []string) []string { f[5] = []string{"x", "++", "", "0"}[rng.Intn(4)]; return f })
+				return bedLine(rng, n, func(f []string) []string { f[5] = []string{"x", "++", "", "0", "\x80", "\xff", "\xc3\xa9", "\x7f", string([]byte{byte(128 + rng.Intn(128))})}[rng.Intn(9)]; return f })
 			}})
 		}
 		if n == 12 {
